@@ -15,6 +15,7 @@ A unit description (verus/units/<name>.unit) is a line-oriented file.  Lines sta
   sub-directives of an item / fn (apply to the most recent @@fn / @@item fn):
   @@contract                    payload spliced between signature and body (requires/ensures/decreases)
   @@loop <n>                    payload spliced between the n-th loop header and its body
+  @@hint start | loopbody <n>        payload at the start of the body / of the n-th loop body (no statement anchor)
   @@hint <before|after> <k> <text>   payload spliced before/after the k-th occurrence of verbatim
                                 statement text in the body (whitespace-normalised match)
   @@sub <k> <old> ==> <new>     item-specific declared rewrite of the k-th (or 'all') occurrence of
@@ -435,6 +436,14 @@ def build_fn(em, src, span, qual, subs, retname='r', declared_only=False):
             # at the very beginning of the body (after the R4 `let mut this = self;` line if present)
             mstart = re.match(r'\{\s*(let mut this = self;)?', body)
             splices.append((mstart.end(), '\n' + '\n'.join(d.payload).rstrip('\n') + '\n'))
+            continue
+        ml = re.match(r'loopbody\s+(\d+)\s*$', d.arg)
+        if ml:
+            # first thing in the body of the n-th loop (no statement anchor: survives edits of the body)
+            n = int(ml.group(1))
+            if n > len(loops):
+                raise LostAnchor(f'{qual}: loop {n} not found ({len(loops)} loops)')
+            splices.append((loops[n - 1] + 1, '\n' + '\n'.join(d.payload).rstrip('\n') + '\n'))
             continue
         m = re.match(r'(before|after)\s+(\d+)\s+(.*)$', d.arg, re.S)
         if not m:
